@@ -7,7 +7,7 @@ import random
 import time
 
 from .. import alpha as al
-from .. import codec, engine_f, env
+from .. import codec, engine_f, env, guard
 from .. import lru as L
 from ..alpha import A, Ax, Axy, Ab, Az, Aw, Awx, S, Sx, Bb, C1
 from ..run import Outcome
@@ -101,7 +101,16 @@ def run(tier, seed, log=print):
     seen_tags = set()
     outcomes = set()
     with multiprocessing.get_context("fork").Pool(min(16, os.cpu_count() or 1)) as pool:
-        for si, hist, stats, viols, err in pool.imap(_work, tasks, chunksize=4):
+        results = guard.imap(pool, _work, tasks)
+        while True:
+            try:
+                si, hist, stats, viols, err = next(results)
+            except StopIteration:
+                break
+            except guard.Stuck as st:
+                si, hist = st.task
+                out.violations.append({"oracle": "reopen-or-query-hangs", "message": "reopening / querying some cut of this history does not come back   [space %s; history: %s]" % (sp[si][3], " ; ".join(codec.show(o) for o in hist)), "replay": {"engine": "F", "tier": tier, "cfg": sp[si][0].to_json(), "history": codec.enc(hist), "history_text": [codec.show(o) for o in hist], "n": -1, "partial": None, "hang": True}})
+                break
             total.update(stats)
             if err:
                 out.harness_errors.append("engine F: %s on %s" % (err, [codec.show(o) for o in hist]))
@@ -150,6 +159,22 @@ def replay(doc):
     ns = env.load()
     cfg = Cfg.from_json(doc["cfg"])
     hist = codec.dec(doc["history"])
+    if doc.get("hang"):
+        ctx_ = multiprocessing.get_context("fork")
+
+        def target():
+            for _ in engine_f.cuts_of_history(ns, cfg, hist, byte_cuts="some"):
+                pass
+            os._exit(0)
+
+        p = ctx_.Process(target=target)
+        p.start()
+        p.join(120)
+        if p.is_alive():
+            p.kill()
+            p.join()
+            return [("reopen-or-query-hangs", "the cuts of this history do not come back within 120s", None)]
+        return [] if p.exitcode == 0 else [("reopen-or-query-hangs", "the process enumerating the cuts died (exit %r)" % p.exitcode, None)]
     res = []
     for n, partial, status, viol in engine_f.cuts_of_history(ns, cfg, hist, byte_cuts="all" if doc.get("partial") not in (None, 1) else "some", only_last_op=False):
         if n == doc["n"] and partial == doc.get("partial"):
